@@ -25,7 +25,7 @@ LEVEL = 'exploration'
 TECHNIQUE = 'bounded exhaustive enumeration of programs x every layout transformation at every site (single, all-at-once, pairs), parse compared with the base layout; merge law and fixed point'
 RULE = ('programs: S1 term shapes over 6 names (RHS and LHS), S4 systems over 6 (quick) / 12 (thorough) right-hand sides, specials; transformations T1 comments, T2 blank lines, '
         'T3 extra/removed whitespace at every token boundary, T3b space before an index bracket, T4 spaces inside { } < > [ ], T5 explicit [0], T6 parenthesise-and-break after every '
-        'operator, T7 statement permutations; merge law and fixed point on every program. non-trivial = variant whose text differs from the base layout and is parsed')
+        'operator, T6 redundant brackets round a single operand, T7 statement permutations; scripts with fenced/inline verbatim code under comments and blanks on every line, duplicate verbatim statements; merge law and fixed point on every program. non-trivial = variant whose text differs from the base layout and is parsed')
 ASSUMPTIONS = [
     'no leading whitespace on a statement (documented IndentationError); no space between the sign and the digits of an index',
     'a space is only removed where Python tokenises the text identically with and without it and the neighbours are not both alphanumeric',
